@@ -102,18 +102,21 @@ def ACache.remove (c : ACache) (key : Nat) : ACache :=
 
 /-! ### the lease computation of `processDelegation` -/
 
-/-- `leaseDeadline` after the DS bound: `observedAt + NS TTL`, lowered to
-`observedAt + min DS TTL` when a DS set is retained (`len(rs.parentDS) > 0`). -/
-def leaseDeadline (observedAt : Int) (nsTTL : Nat) (dsTTLs : List Nat) : Int :=
-  let lease := observedAt + (nsTTL : Int) * sec
+/-- `leaseDeadline` after the ceiling and the DS bound: `observedAt + NS TTL`,
+lowered to `observedAt + maxTTL` (`authority.MaximumTTL`, the 12 h ceiling
+measured from the observation), then lowered to `observedAt + min DS TTL` when a
+DS set is retained (`len(rs.parentDS) > 0`). -/
+def leaseDeadline (maxTTL : Int) (observedAt : Int) (nsTTL : Nat) (dsTTLs : List Nat) : Int :=
+  let lease0 := observedAt + (nsTTL : Int) * sec
+  let lease := if observedAt + maxTTL < lease0 then observedAt + maxTTL else lease0
   if dsTTLs.isEmpty then lease else
     let ds := observedAt + (minRRSetTTL dsTTLs : Int) * sec
     if ds < lease then ds else lease
 
 /-- `childDeadline, childKey := minCut(rs.cutDeadline, rs.cutKey, leaseDeadline, key)` -/
-def childCut (cut : Deadline) (cutKey : Nat) (observedAt : Int) (nsTTL : Nat) (dsTTLs : List Nat)
+def childCut (maxTTL : Int) (cut : Deadline) (cutKey : Nat) (observedAt : Int) (nsTTL : Nat) (dsTTLs : List Nat)
     (key : Nat) : Deadline × Nat :=
-  minCut cut cutKey (some (leaseDeadline observedAt nsTTL dsTTLs)) key
+  minCut cut cutKey (some (leaseDeadline maxTTL observedAt nsTTL dsTTLs)) key
 
 /-! ### middleware.ResponseMeta -/
 
@@ -261,7 +264,7 @@ def step (maxTTL : Int) (s : Sys) : Ev → Sys
       if !progressing r.zone z r.qname then s      -- errParentDetection: nothing is touched
       else
         let nsTTL := minRRSetTTL nsTTLs
-        let lease := leaseDeadline s.now nsTTL dsTTLs
+        let lease := leaseDeadline maxTTL s.now nsTTL dsTTLs
         let child := (minCut r.cut 0 (some lease) 0).1
         let m1 := s.cut.boundCutFor child 0
         match child with
